@@ -2684,7 +2684,11 @@ func (a *Association) getOrCreateStream(
 	defaultPayloadType PayloadProtocolIdentifier,
 ) *Stream {
 	if s, ok := a.streams[streamIdentifier]; ok {
-		s.SetDefaultPayloadType(defaultPayloadType)
+		// Inbound chunks look the stream up without knowing a payload type: they
+		// must not wipe the one the stream was opened (or configured) with.
+		if defaultPayloadType != PayloadTypeUnknown {
+			s.SetDefaultPayloadType(defaultPayloadType)
+		}
 
 		return s
 	}
